@@ -1560,18 +1560,40 @@ int janet_loop_done(void) {
              janet_atomic_load(&janet_vm.listener_count));
 }
 
+#define JANET_DEADLINE_DEFER_MAX 8
+
+/* Is a resumption of this fiber queued that will actually run (not superseded by a later one)? */
+static int janet_fiber_has_pending_task(JanetFiber *fiber) {
+    JanetQueue *q = &janet_vm.spawn;
+    for (int32_t i = q->head; i != q->tail; i = (i + 1 < q->capacity) ? i + 1 : 0) {
+        JanetTask *task = (JanetTask *) q->data + i;
+        if (task->fiber == fiber && task->expected_sched_id == fiber->sched_id) return 1;
+    }
+    return 0;
+}
+
 JanetFiber *janet_loop1(void) {
     /* Schedule expired timers */
     JanetTimeout to;
     JanetTimestamp now = ts_now();
+    JanetTimeout deferred[JANET_DEADLINE_DEFER_MAX];
+    int ndeferred = 0;
     while (peek_timeout(&to) && to.when <= now) {
         pop_timeout(0);
         if (to.curr_fiber != NULL) {
             /* The deadline is over either way: its helper thread, if any, is joined here (it was only
              * joined when the deadline was dropped unexpired, and leaked when it expired) */
+            int interrupts = to.has_worker;
             janet_timeout_reap_worker(&to);
             if (janet_fiber_can_resume(to.curr_fiber)) {
-                janet_cancel(to.fiber, janet_cstringv("deadline expired"));
+                if (!interrupts && ndeferred < JANET_DEADLINE_DEFER_MAX && janet_fiber_has_pending_task(to.fiber)) {
+                    /* The task has just been resumed with the result of the wait it was in (a value taken from
+                     * a channel, say) but has not run yet. Cancelling it now would drop that result - for a
+                     * channel the value would be gone for good. Let it run; the deadline fires right after. */
+                    deferred[ndeferred++] = to;
+                } else {
+                    janet_cancel(to.fiber, janet_cstringv("deadline expired"));
+                }
             }
         } else {
             /* This is a timeout (for a function call, not a whole fiber) */
@@ -1584,6 +1606,8 @@ JanetFiber *janet_loop1(void) {
             }
         }
     }
+
+    for (int i = 0; i < ndeferred; i++) add_timeout(deferred[i]);
 
     /* Run scheduled fibers unless interrupts need to be handled. */
     while (janet_vm.spawn.head != janet_vm.spawn.tail) {
